@@ -25,6 +25,7 @@ T0 = 1_700_000_000 * 10**9
 HORIZON = 100 * MIN
 SCEN_SALT = "otel2puml-verif-scen-v1"
 LARGE_BASE = 100_000     # scenario indices >= LARGE_BASE: large-scale family
+MIXED_BASE = 200_000     # scenario indices >= MIXED_BASE: combined fault kinds
 
 
 def preload():
@@ -45,7 +46,11 @@ def gen_scenario(prop: str, idx: int) -> dict:
     # the default batch size (a thousand and more spans per flush batch, wide
     # call trees) - thresholds such as 999 / 1000 bound variables or rows per
     # page are invisible to the small scenarios
-    large = idx >= LARGE_BASE
+    large = LARGE_BASE <= idx < MIXED_BASE
+    # indices from MIXED_BASE on: fault kinds combine inside one trace (a
+    # trace with a lost parent or outside the window that also carries
+    # several workflow names)
+    mixed = idx >= MIXED_BASE
     # realistic nanosecond clock: the ingestion period does not start or end
     # on a round number (window borders are then not exactly representable
     # as floats)
@@ -113,6 +118,7 @@ def gen_scenario(prop: str, idx: int) -> dict:
         kind = rng.choice(kinds)
         if kind == "outside" and buf == 0:
             kind = "ok"
+        also_bad = mixed and kind != "badname" and rng.random() < 0.5
         span_len = 1000
         if kind == "outside":
             if rng.random() < 0.5:
@@ -144,7 +150,8 @@ def gen_scenario(prop: str, idx: int) -> dict:
             kids = list(node[1])
             rng.shuffle(kids)  # sibling order differs between traces
             nm = name
-            if kind == "badname" and parent is not None and rng.random() < .5:
+            if (kind == "badname" or also_bad) and parent is not None \
+                    and rng.random() < .5:
                 nm = rng.choice([n for n in names + ["WX"] if n != name])
             d = dict(id=sid, trace=tid, type=node[0], parent=parent, st=st,
                      en=st + max(1, span_len // (i + 1)), name=nm, app="app")
@@ -194,6 +201,8 @@ def gen_scenario(prop: str, idx: int) -> dict:
                 lost = [sp[0]["id"]]
             else:
                 sp[0]["parent"] = "lost-" + tid
+        if also_bad and any(d["name"] != name for d in sp):
+            kind += "+badname"
         traces.append(dict(id=tid, name=name, kind=kind, spans=sp, lost=lost))
     # ---- transport -------------------------------------------------------
     stream = [s for t in traces for s in t["spans"]
